@@ -267,3 +267,32 @@ def failure_entry(rep, rid: str, prog: Program) -> None:
                 rep.ok(rid)
         if n == 0:
             raise AnalysisError(f"{hf.qual}: no path")
+
+
+class RuleView:
+    """A rule of a sibling property re-run under another rule id, optionally restricted to the findings that concern
+    one parameter / keyword (`keep`): obligations that do not concern it count as discharged under the new id."""
+
+    def __init__(self, rep, rid: str, keep=None) -> None:
+        self._rep, self._rid, self._keep = rep, rid, keep
+
+    def __getattr__(self, name: str):
+        return getattr(self._rep, name)
+
+    def rule(self, rid: str, text: str) -> None:  # the caller declares the rule text itself
+        return None
+
+    def instance(self, rid: str, construct: str, sample=None) -> None:
+        self._rep.instance(self._rid, construct, sample)
+
+    def ok(self, rid: str, n: int = 1) -> None:
+        self._rep.ok(self._rid, n)
+
+    def fail(self, rid: str, key: str, message: str, where: str = "", function: str = "", **detail) -> None:
+        if self._keep is None or self._keep(key, message):
+            self._rep.fail(self._rid, key, message, where=where, function=function, **detail)
+        else:
+            self._rep.ok(self._rid)
+
+    def floor(self, rid: str, minimum: int) -> None:
+        return None
